@@ -147,7 +147,10 @@ _STR_ALPHABET_ANY = st.one_of(
 
 
 def str_text(ascii_only=True):
-    return st.text(alphabet=_STR_ALPHABET_ASCII if ascii_only else _STR_ALPHABET_ANY, max_size=8)
+    plain = st.text(alphabet=_STR_ALPHABET_ASCII if ascii_only else _STR_ALPHABET_ANY, max_size=8)
+    # characters that mean something outside a string: comment sign, brackets, keywords, indentation
+    special = st.sampled_from(["#", "a#b", "# no comment", "x # y", "    ", "{p}", "for", "1,2", "p0", "name x", "a | 0", "="])
+    return st.one_of(plain, plain, plain, plain, plain, plain, special)
 
 
 # ------------------------------------------------------------------ expression context
